@@ -113,8 +113,25 @@ func RunScenario(t *testing.T, sc *Scenario) *Result {
 		}
 		w.Close()
 	})
-	if sc.Diff != "" && len(res.Violations) == 0 && res.Failure == "" {
-		runDiff(t, sc, res)
+	if sc.Diff != "" && res.Failure == "" {
+		if len(res.Violations) == 0 {
+			runDiff(t, sc, res)
+		} else {
+			// the first execution stopped at a violation: compare the prefix up to there
+			cut := 0
+			for _, v := range res.Violations {
+				if v.Step+1 > cut {
+					cut = v.Step + 1
+				}
+			}
+			if cut > len(sc.Steps) {
+				cut = len(sc.Steps)
+			}
+			pre := *sc
+			pre.Steps = sc.Steps[:cut]
+			pre.NoFinalClose = true
+			runDiff(t, &pre, res)
+		}
 	}
 	return res
 }
@@ -725,7 +742,9 @@ func diffMaps[K comparable, V comparable](got, want map[K]V) string {
 }
 
 // serverSnapshot reads every live session through the repository's accessors.
-func (r *runner) serverSnapshot() map[string]*MSession {
+func (r *runner) serverSnapshot() map[string]*MSession { return r.serverSnapshotOpt(false) }
+
+func (r *runner) serverSnapshotOpt(keepDangling bool) map[string]*MSession {
 	snap := map[string]*MSession{}
 	ids := map[string]bool{}
 	for id := range r.m.Live {
@@ -770,6 +789,10 @@ func (r *runner) serverSnapshot() map[string]*MSession {
 				for _, a := range st.(*odal.State).AssetInstances() {
 					t.Assets[a.GetEntityId()] = vasset(a)
 				}
+			}
+			if keepDangling {
+				snap[ss.SessionUUID] = t
+				continue
 			}
 			// attachments of entities that do not exist mean nothing to a client
 			for k := range t.Components {
@@ -1007,7 +1030,7 @@ func (r *runner) lifecycle() {
 // uuids left out).
 func (r *runner) finalState() string {
 	var parts []string
-	snap := r.serverSnapshot()
+	snap := r.serverSnapshotOpt(true)
 	for _, s := range snap {
 		var b strings.Builder
 		var ps []uint32
